@@ -75,6 +75,19 @@ def check(res, text, seen, also_compact=True):
             runner.fail(res, 'M-TREE', f'{text!r} groups differently', {'expr': text}, expected=str(want[1]), observed=str(got[1]))
             return
         runner.count(res, 'trees_agree')
+        # the grouping of an expression does not depend on where it stands: loop body of a you-function; ordinary functions
+        # (when it contains no ??)
+        for ctx in (('you_loop',) if '??' in text else ('you_loop', 'func', 'func_loop')):
+            try:
+                other = P.hidc_parse_expr(text, ctx)
+            except Exception as e:  # noqa
+                if '@' in text or '!' in text.replace('!=', ''):
+                    continue            # flavoured calls are not legal everywhere
+                runner.fail(res, 'M-TREE', f'{text!r} parses in a you-function but not in context {ctx}: {type(e).__name__}: {e}', {'expr': text, 'context': ctx})
+                return
+            if other != got[1]:
+                runner.fail(res, 'M-TREE', f'{text!r} groups differently in context {ctx}', {'expr': text, 'context': ctx}, expected=str(got[1]), observed=str(other))
+                return
         # round trip of the minimal print
         back = P.show(got[1])
         try:
@@ -131,6 +144,16 @@ def rand_tree(r, d):
 
 
 def run_shard(spec):
+    try:
+        P.parse_prelude()        # a whole program first: statement parsing must leave the expression grammar as it was
+    except Exception as e:  # noqa
+        res = runner.new_result()
+        runner.fail(res, 'M-EXC', f'the statement prelude does not parse: {type(e).__name__}: {e}', {'source': P.PRELUDE})
+        return res
+    return _run_shard(spec)
+
+
+def _run_shard(spec):
     res = runner.new_result()
     seen = set()
     ops = P.BINOPS
